@@ -79,7 +79,25 @@ def run(P: Program, R: Report, tier: str) -> None:
                     continue
                 cn = call_name(s.value) or ""
                 q = P.resolve_name(f.module, cn) or ""
-                if not (q.startswith("ext:geff.validate") and (cn.startswith("validate_") or cn.startswith("has_"))):
+                table = []
+                if not q and isinstance(s.value.func, ast.Name):
+                    # check(*args) where `check` is the loop variable over a literal table of validators
+                    for lp in ast.walk(f.node):
+                        if isinstance(lp, ast.For) and s in lp.body and isinstance(lp.target, ast.Tuple) and any(isinstance(x, ast.Name) and x.id == cn for x in lp.target.elts):
+                            idx = [i for i, x in enumerate(lp.target.elts) if isinstance(x, ast.Name) and x.id == cn][0]
+                            it = lp.iter
+                            if isinstance(it, ast.Name):
+                                dd = [a_ for a_ in ast.walk(f.node) if isinstance(a_, ast.Assign) and norm(a_.targets[0]) == it.id]
+                                it = dd[0].value if len(dd) == 1 else it
+                            if isinstance(it, (ast.Tuple, ast.List)):
+                                for row in it.elts:
+                                    if isinstance(row, (ast.Tuple, ast.List)) and idx < len(row.elts):
+                                        table.append(norm(row.elts[idx]))
+                    table = [t for t in table if (P.resolve_name(f.module, t) or "").startswith("ext:geff.validate")]
+                if table:
+                    cn = "/".join(table)
+                    n += len(table) - 1
+                elif not (q.startswith("ext:geff.validate") and (cn.startswith("validate_") or cn.startswith("has_"))):
                     continue
                 n += 1
                 okv = norm(s.targets[0].elts[0])
@@ -91,7 +109,7 @@ def run(P: Program, R: Report, tier: str) -> None:
                     continue
                 raises = any(isinstance(x, ast.Raise) and "ValueError" in norm(x) for x in nxt.body)
                 drops = any(isinstance(x, ast.Delete) for x in nxt.body) and any(isinstance(x, ast.Expr) and isinstance(x.value, ast.Call) and call_name(x.value) == "warn" for x in nxt.body)
-                optional = cn in ("validate_tracklets", "validate_lineages")
+                optional = cn in ("validate_tracklets", "validate_lineages") and not table
                 good = drops if optional else raises
                 R.check(good, "R12.2", f, nxt, f"{f.short}: a failing {cn} " + ("drops the optional property with a warning" if optional else "raises ValueError"),
                         "the failing branch neither raises ValueError nor removes the property", via="error-discipline")
